@@ -59,7 +59,10 @@ def case_strategy(draw, tier):
         steps = draw(st.integers(2, 4))
         prof = [[draw(f(0.005, 0.1)) for _ in range(steps)] for _ in range(2)]
     return {"gas": gas, "controllers": ctrls, "chain": chain, "chain_eff": [draw(f(0.2, 1.0)), draw(f(0.2, 1.0))],
-            "timeseries": prof, "infeasible": draw(st.sampled_from([0] * 8 + [1, 2, 2])), "cod": draw(st.booleans())}
+            "timeseries": prof, "infeasible": draw(st.sampled_from([0] * 8 + [1, 2, 2])), "cod": draw(st.booleans()),
+            # solver options handed to the coupled run as keyword arguments: every member calculation must use them
+            "solver_kwargs": draw(st.sampled_from([{}, {}, {"friction_model": "swamee-jain"}, {"friction_model": "colebrook"},
+                                                   {"use_numba": False}]))}
 
 
 def evaluate(case):
@@ -158,7 +161,8 @@ def evaluate(case):
         pp.set_user_pf_options(g_, iter=100)
     nets = {"power": pw, **dict(zip(names, gnets))}
     f = []
-    labels = {"ngas:%d" % len(gnets)} | {"kind:" + k_ for k_ in kinds}
+    skw = dict(case.get("solver_kwargs") or {})
+    labels = {"ngas:%d" % len(gnets)} | {"kind:" + k_ for k_ in kinds} | {"solver_kwargs:" + ",".join(sorted(skw)) if skw else "solver_kwargs:none"}
     prof = case["timeseries"]
     steps = None
     ows = {}
@@ -178,9 +182,10 @@ def evaluate(case):
         labels.add("timeseries")
     try:
         if steps:
-            run_timeseries(mn, time_steps=range(steps), verbose=False)
+            run_timeseries(mn, time_steps=range(steps), verbose=False, **skw)
         else:
-            run_control(mn, ctrl_variables={"nets": {n_: {"continue_on_divergence": True} for n_ in nets}} if case.get("cod") else None)
+            run_control(mn, ctrl_variables={"nets": {n_: {"continue_on_divergence": True} for n_ in nets}} if case.get("cod") else None,
+                        **skw)
         status = "ok"
         exc = None
     except Exception as e:
@@ -195,7 +200,7 @@ def evaluate(case):
             if name == "power":
                 ppow.runpp(c_)
             else:
-                pp.pipeflow(c_)
+                pp.pipeflow(c_, **skw)
             alone[name] = ("ok", c_)
         except Exception as e:
             alone[name] = (type(e).__name__, c_)
@@ -253,7 +258,7 @@ def evaluate(case):
                         ppow.runpp(c_)
                         pairs = [("res_bus.vm_pu", c_.res_bus.vm_pu.values, 1e-10)]
                     else:
-                        pp.pipeflow(c_)
+                        pp.pipeflow(c_, **skw)
                         # the step's written values are recomputed by the reference formula (may differ by an ulp from the code's)
                         pairs = [("res_junction.p_bar", c_.res_junction.p_bar.values, 1e-9),
                                  ("res_pipe.mdot_from_kg_per_s", c_.res_pipe.mdot_from_kg_per_s.values, 1e-9)]
